@@ -184,34 +184,62 @@ def h_dispatch(E, shape):
     scale = boot.mod("scale")
     W0 = shape["W0"]
     kind = shape["kind"]
-    user, spec = common.make_problem(E, ["free"], ["eq0"], fmt=shape.get("fmt", "coo"), policy=shape.get("policy", "fresh"))
+    cons = shape.get("cons", ["eq0"])
+    m = len(cons)
+    user, spec = common.make_problem(E, ["free"], cons, fmt=shape.get("fmt", "coo"), policy=shape.get("policy", "fresh"))
     xs = mag(E, "xs", W0)
-    ys = E.real("ys")
-    params = P.Params(scaling_type=P.ScalingType[kind], scaling_primal=arr([xs]), scaling_dual=arr([ys]))
+    ys = [E.real(f"ys{i}") for i in range(m)]
+    params = P.Params(scaling_type=P.ScalingType[kind], scaling_primal=arr([xs]), scaling_dual=arr(ys))
     snaps = common.snapshot([("params.scaling_primal", params.scaling_primal), ("params.scaling_dual", params.scaling_dual)])
     gv = E.uf("g0", xs)
-    cv = E.uf("c0", xs)
-    Jv = E.uf("J0_0", xs)
-    for v in (gv, cv, Jv):
-        a = sabs(v)
-        E.assume(lor(v == 0, land(a >= 2.0 ** (-W0), a <= 2.0 ** W0)))
-    sc = scale.create_scaling(user, params, params.scaling_primal, params.scaling_dual)
+    cv = E.uf("c0", xs) if m else 0.0
+    Jv = E.uf("J0_0", xs) if m else 0.0
+    Hv = E.uf("H0_0", xs, *ys)
+    for v in (gv, cv, Jv, Hv):
+        if core.is_sym(v):
+            a = sabs(v)
+            E.assume(lor(v == 0, land(a >= 2.0 ** (-W0), a <= 2.0 ** W0)))
+    old = scale.np
+    if kind == "KKT":
+        scale.np = FrexpCounter(old, shape.get("unwind", 3))
+    try:
+        sc = scale.create_scaling(user, params, params.scaling_primal, params.scaling_dual)
+    finally:
+        scale.np = old
     common.check_snapshots(E, snaps, "C11.scaling_inputs_unchanged")
     if spec["handed"]:
         common.check_snapshots(E, spec["handed"], "C11.scaling_leaves_cached_callback_results_unchanged")
     vw, cw = items(sc.var_weights), items(sc.cons_weights)
     E.prove(is_int_weights(sc.var_weights) and is_int_weights(sc.cons_weights), "C20.weights_are_integers")
+    E.prove(len(vw) == 1 and len(cw) == m, "C20.one_weight_per_variable_and_constraint")
     okp = True
     for (k, xa, ya, site) in spec["calls"]:
         okp = land(okp, xa[0] == xs)
+        if ya is not None:
+            okp = land(okp, len(ya) == m, *[ya[i] == ys[i] for i in range(min(m, len(ya)))])
     E.prove(okp, "C20.scaling_point_is_the_user_supplied_one")
     if kind == "Nominal":
         s = ld(xs, vw[0])
         E.prove(implies(xs != 0, land(sabs(s) >= 1.0, sabs(s) < 2.0)), "C20.nominal_values_normalised")
-        s = ld(cv, cw[0])
-        E.prove(implies(cv != 0, land(sabs(s) >= 1.0, sabs(s) < 2.0)), "C20.nominal_values_normalised")
-    else:
+        if m:
+            s = ld(cv, cw[0])
+            E.prove(implies(cv != 0, land(sabs(s) >= 1.0, sabs(s) < 2.0)), "C20.nominal_values_normalised")
+    elif kind == "GradJac":
         s = ld(gv, -vw[0])
         E.prove(implies(gv != 0, land(sabs(s) >= 1.0, sabs(s) < 2.0)), "C20.gradient_normalised")
-        s = sabs(ld(ld(Jv, -vw[0]), cw[0]))
-        E.prove(implies(Jv != 0, land(s >= 1.0, s < 2.0)), "C20.jacobian_row_max_normalised")
+        if m:
+            s = sabs(ld(ld(Jv, -vw[0]), cw[0]))
+            E.prove(implies(Jv != 0, land(s >= 1.0, s < 2.0)), "C20.jacobian_row_max_normalised")
+    else:
+        # KKT: columns of [[H, J^T], [J, 0]] scaled with D = (-var_weights, cons_weights)
+        D = [-vw[0]] + list(cw)
+        K = [[Hv, Jv], [Jv, 0.0]] if m else [[Hv]]
+        N = len(K)
+        for c in range(N):
+            tot, s0, nz = 0.0, 0.0, False
+            for r in range(N):
+                if core.is_sym(K[r][c]):
+                    tot = tot + sabs(ld(ld(K[r][c], D[r]), D[c]))
+                    s0 = s0 + sabs(K[r][c])
+                    nz = lor(nz, K[r][c] != 0)
+            E.prove(implies(land(nz, s0 >= 1e-10), land(tot >= 1.0, tot < 4.0)), "C20.kkt_column_sums_in_1_4")
